@@ -40,8 +40,10 @@ def scratch(prefix="lv_"):
     return tempfile.mkdtemp(prefix=prefix, dir=os.environ.get("TMPDIR") or "/tmp")
 
 
-def _java(xmx, deque):
+def _java(xmx, deque, tmpdir=None):
     cmd = ["java", "-XX:+UseParallelGC", f"-Xmx{xmx}"]
+    if tmpdir:      # TLC leaves an empty tlc-<n> directory in the JVM's temporary directory at every start: keep it inside our scratch
+        cmd.append(f"-Djava.io.tmpdir={tmpdir}")
     if deque:
         cmd.append("-Dtlc2.tool.queue.IStateQueue=StateDeque")
     return cmd + ["-cp", CP, "tlc2.TLC"]
@@ -59,7 +61,7 @@ def run_tlc(module, cfg=None, *, workers=16, timeout=1800, xmx="4g", env=None, e
     """Run TLC on spec/<module>.tla with spec/<cfg> (default <module>.cfg)."""
     meta = scratch("lv_tlc_")
     cfg = cfg or module + ".cfg"
-    cmd = _java(xmx, deque) + ["-workers", str(workers), "-metadir", meta, "-noGenerateSpecTE",
+    cmd = _java(xmx, deque, meta) + ["-workers", str(workers), "-metadir", meta, "-noGenerateSpecTE",
                                "-config", cfg]
     if coverage:
         cmd += ["-coverage", "1"]
